@@ -1,5 +1,9 @@
 #!/bin/sh
-# Offline setup: make sure hypothesis is importable by the repository's interpreter.
+# Offline setup: hypothesis for the repository's interpreter; atheris (thorough-tier fuzz campaigns) into ./.deps
+cd "$(dirname "$0")" || exit 1
 /venv/bin/python -c "import hypothesis" 2>/dev/null || \
   /venv/bin/pip install --no-index --find-links /opt/veriftools/wheels hypothesis >/dev/null 2>&1
+PYTHONPATH=./.deps /venv/bin/python -c "import atheris" 2>/dev/null || \
+  /venv/bin/pip install --no-index --find-links /opt/veriftools/wheels atheris --target ./.deps >/dev/null 2>&1
 /venv/bin/python -c "import hypothesis, numpy, scipy; print('setup ok: hypothesis', hypothesis.__version__)"
+PYTHONPATH=./.deps /venv/bin/python -c "import atheris; print('atheris available')" 2>/dev/null || echo "atheris not available: thorough-tier fuzz campaigns will be skipped"
